@@ -20,7 +20,7 @@ CHECKS = [
        "Rust exit condition, every call of next_token strictly advances the cursor, the token stream is finite and ends with the only Eof, line numbers are monotone and bounded by the newlines of the input. "
        "The model is compared with the real scanner on all strings of length ≤3 (≤4 thorough) over a 31-character alphabet, token soup and programs; scan→parse→compile runs in-process under catch_unwind + "
        "watchdog on ≈250k texts (short strings, token sequences ≤3 over all token kinds, ≤5 over a core, mutated programs, nesting to 64). The keyword / single / twin-character tables the model uses are regenerated from the source on every run.",
-       "Open obligations: parse_no_panic/parse_fuel (parser model), compile_no_panic beyond the core fragment; for parser and compiler the level is the exhaustive search."),
+       "Also kernel-checked on the parser model (Model/Parser.lean, compared with the real parser on every case by ops pexpr / pprog): for EVERY token list the parser ends — no fuel exhaustion with the fuel 2·len+O(1) — because every continuing token has an infix function (a fact re-proved against the generated rule table on every run: the seeded hang C01-m1 breaks it), and the text-level parse_program_text_total (scan then parse ends for every source string; constructs outside the model — labels, filters, match — are `skip`). Open: compile_no_panic beyond the core fragment (exhaustive search)."),
     _c("C02", "Lean reference semantics (big-step evaluator + static resolver) as executable spec/oracle; Lean VM model run on the real compiler's bytecode; differential run",
        "P2sh.Ref / P2sh.Static are the specification written from the property (evaluation order, lexical scoping, closures by value, globals by reference, static faults). Every generated "
        "program is run by the real pipeline and judged against the Lean reference (final value, observation array, runtime error + line, compile error + line, stack height 0). "
@@ -77,7 +77,7 @@ CHECKS = [
        "Kernel-checked: literal text renders as itself for every brace-free string (model and reference parser), the print family returns the byte length written (+1 for ln), a missing argument is an error. "
        "Spec.Format (documented grammar) is the oracle for all one-item strings over index/fill/justify/width/radix sets × argument lists, random multi-item strings, malformed specifiers (no-crash).",
        "Also kernel-checked: format_refines — for every grammar-derived format string (printer renderText of well-formed item lists; parse_renderText shows the reference parser reads it back) and every argument list, "
-       "the model of format_buf returns exactly the text the reference renderer prescribes, and an error where it prescribes one. Two explicit bounds: widths <= 65536, fewer than 2^64 arguments."),
+       "the model of format_buf returns exactly the text the reference renderer prescribes, and an error where it prescribes one. No width condition (model and reference renderer both go silent above width 100000); fewer than 2^64 arguments."),
     _c("C13", "generated failing constructs on known lines (independent of the scanner) + reference semantics predicting `rterr <line>`; Lean lemma make_lines_aligned",
        "One failing construct per program on a random line after random filler (comments, blank lines, definitions, loops, functions), inside/outside functions and closures, LF and CRLF; the reported "
        "line must equal the line computed from the text layout, and the reference semantics must predict the same line. Kernel-checked: make() emits exactly one line entry per code byte.",
